@@ -164,7 +164,7 @@ def setup(mode, seed, node_ids):
         rem = canopen.RemoteNode(nid, od)
         loc.associate_network(bus.net_l)
         rem.associate_network(bus.net_r)
-        rem.sdo.RESPONSE_TIMEOUT = 2.0
+        rem.sdo.RESPONSE_TIMEOUT = 1.0
         pairs.append((loc, rem))
     return bus, pairs
 
@@ -397,6 +397,11 @@ def gen_cases(rng, tier):
 def shrink(c):
     if c["kind"] == "rt":
         items = c["items"]
+        if len(items) <= 1 and c["mode"] == "inline":
+            return
+        if c["mode"] != "inline":          # the same failure under inline delivery is the smaller (and faster) case
+            for i in range(len(items)):
+                yield dict(c, mode="inline", items=[items[i]], model=True, trace=True)
         for i in range(len(items)):
             yield dict(c, items=[items[i]])
 
